@@ -149,4 +149,4 @@ def run_case(case):
 def run_task(task):
     return batch.run_batched(task["cases"], _judge,
                              label=lambda c: "ok:body%d" % len(c["body"]) if "body" in c else "ok:pair",
-                             key=lambda c: repr(c.get("body") or (c["p"], c["v"], c["op"])))
+                             key=lambda c: repr(c.get("body") or (c["p"], c["v"], c["op"])), strict_batch=True)
